@@ -185,7 +185,7 @@ def scenario(rng, T, roots, gated, plan, tag='wt'):
     errf = open(os.path.join(d, 'stderr'), 'w+')
     import subprocess
     proc = subprocess.Popen([vf.ZINOMA, '--watch'] + list(roots), cwd=d, env=e, stdout=errf, stderr=subprocess.STDOUT,
-                            start_new_session=True)
+                            start_new_session=True, preexec_fn=vf.reset_signals)
     released = {}
     V = {}
     known = []
@@ -463,7 +463,7 @@ def filter_scenario(rng, n_ops=10, tag='wf'):
     e.pop('ZINOMA_VERIF', None)
     errf = open(os.path.join(d, 'stderr'), 'w+')
     proc = subprocess.Popen([vf.ZINOMA, '--watch', 'filt', 'anyf'], cwd=d, env=e, stdout=errf, stderr=subprocess.STDOUT,
-                            start_new_session=True)
+                            start_new_session=True, preexec_fn=vf.reset_signals)
     V = {}
     log = []
 
